@@ -16,7 +16,8 @@
      contrib (p, t)    := [] if t = None; every target of the package `go list` finds for p IN THE MAGEFILE DIRECTORY,
                           stamped with alias (alias_str t) and import path p otherwise
      contributions tags := contrib of every distinct named (path, alias) pair of tags (a pair carried by several
-                          specs is ONE import) ++ contrib of every root import
+                          specs is ONE import) ++ contrib of every distinct root import (a package imported bare
+                          by several specs is ONE import);  all_root_tags tags = the bare-tagged paths, one per spec
      own_name f        := Name or Receiver:Name;   prefixed a n := n for a = "", a:n otherwise *)
 From Coq Require Import Permutation.
 From Mage Require Import Base.Strs Model.ImportTag Proof.ImportTag_facts.
@@ -74,9 +75,9 @@ Theorem C19_exposes_exactly : forall files,
                Permutation (exposed imps) (contributions golist dir (tags files)).
 Proof. exact (exposes_exactly golist dir). Qed.
 
-(* no (path, alias) pair tagged twice: exactly the sum of what every single spec contributes *)
+(* no (path, alias) pair and no bare path tagged twice: exactly the sum of what every single spec contributes *)
 Theorem C19_exposes_exactly_distinct : forall files,
-  NoDup (named_tags (tags files)) ->
+  NoDup (named_tags (tags files)) -> NoDup (all_root_tags (tags files)) ->
   (forall p t, In (p, Some t) (tags files) -> golist dir p <> None) ->
   exists imps, set_imports golist dir files = Some imps /\
                Permutation (exposed imps) (flat_map (contrib golist dir) (tags files)).
@@ -96,7 +97,7 @@ Proof. exact (untagged_nothing golist dir). Qed.
 (* several packages may share one alias: what is exposed under an alias a (a = "" for root
    imports) is the union of the contributions of all specs tagged with a *)
 Theorem C19_shared_alias : forall files a,
-  NoDup (named_tags (tags files)) ->
+  NoDup (named_tags (tags files)) -> NoDup (all_root_tags (tags files)) ->
   (forall p t, In (p, Some t) (tags files) -> golist dir p <> None) ->
   exists imps, set_imports golist dir files = Some imps /\
                Permutation (filter (has_alias a) (exposed imps))
@@ -142,6 +143,19 @@ Theorem C19_one_package_two_aliases_before_repair_refuted :
       Some ["two:Docker:Push"; "two:Build"].
 Proof. exact one_package_two_aliases_before_repair_refuted. Qed.
 
+(* the tree before fix 4a102aa (every bare spec appended to rootImports): the same package imported
+   bare by two magefiles was imported twice - every target twice under the same name, which the
+   duplicate check rejects as a definition colliding with itself; the current code imports it once *)
+Theorem C19_bare_twice_before_repair_refuted :
+  exists g dir files,
+    tags files = [("ex/imp/a", Some None); ("ex/imp/a", Some None)] /\
+    g dir "ex/imp/a" <> None /\
+    option_map (fun imps => map target_name (exposed imps)) (set_imports g dir files) =
+      Some ["Docker:Push"; "Build"] /\
+    option_map (fun imps => map target_name (exposed imps)) (set_imports_roots_appended g dir files) =
+      Some ["Docker:Push"; "Build"; "Docker:Push"; "Build"].
+Proof. exact bare_twice_before_repair_refuted. Qed.
+
 Print Assumptions C19_tag_exact.
 Print Assumptions C19_raw_path_before_repair_refuted.
 Print Assumptions C19_any_length.
@@ -159,11 +173,12 @@ Print Assumptions C19_imported_default_aliases_ignored.
 Print Assumptions C19_lookup_in_magefile_dir.
 Print Assumptions C19_start_dir_before_repair_refuted.
 Print Assumptions C19_one_package_two_aliases_before_repair_refuted.
+Print Assumptions C19_bare_twice_before_repair_refuted.
 
 (* non-vacuity: a single-line import with a two-line group, a grouped import whose own group is
    ignored, a tag line preceded by another tag line, a trailing tag on a raw path literal, a tag
    not on the last line; two packages under one alias, one package under two aliases and twice
-   under the same one; packages with Default/Aliases of their own *)
+   under the same one, one package imported bare twice; packages with Default/Aliases of their own *)
 Example C19_nonvacuous :
   tags w_files = w_tags /\
   (forall p t, In (p, Some t) (tags w_files) -> w_golist "build" p <> None) /\
